@@ -72,6 +72,43 @@ impl<F: Future> Future for CatchPanic<F> {
     }
 }
 
+/// An installed interceptor together with its stop-the-world signalling.
+#[derive(Clone)]
+pub struct Hooked {
+    pub icpt: Arc<dyn conserve::transport::verif::Interceptor>,
+    pub notify: Arc<tokio::sync::Notify>,
+    pub crashed: Arc<dyn Fn() -> bool + Send + Sync>,
+}
+
+impl Hooked {
+    pub fn from_icpt(i: &Arc<Icpt>) -> Hooked {
+        let i2 = i.clone();
+        Hooked {
+            icpt: i.clone(),
+            notify: i.notify.clone(),
+            crashed: Arc::new(move || i2.is_crashed()),
+        }
+    }
+}
+
+pub const NOHOOK: Option<&'static Hooked> = None;
+
+pub trait AsHooked {
+    fn hooked(&self) -> Option<Hooked>;
+}
+
+impl AsHooked for Option<&Arc<Icpt>> {
+    fn hooked(&self) -> Option<Hooked> {
+        self.map(Hooked::from_icpt)
+    }
+}
+
+impl AsHooked for Option<&Hooked> {
+    fn hooked(&self) -> Option<Hooked> {
+        self.cloned()
+    }
+}
+
 #[derive(Clone, Copy, Debug, PartialEq, Eq)]
 pub enum Flavor {
     Current,
@@ -112,12 +149,13 @@ impl<T> End<T> {
 /// Drive `fut` to completion on a fresh runtime. If an interceptor with a crash plan stops the
 /// world, the future is dropped inside the runtime and the runtime is torn down without running
 /// anything further (no destructor effect reaches storage: the interceptor keeps answering Crash).
-pub fn drive<T, F>(flavor: Flavor, icpt: Option<&Arc<Icpt>>, fut: F) -> End<T>
+pub fn drive<T, F>(flavor: Flavor, icpt: impl AsHooked, fut: F) -> End<T>
 where
     F: Future<Output = T>,
 {
+    let icpt = icpt.hooked();
     let rt = build_rt(flavor);
-    let notify = icpt.map(|i| i.notify.clone());
+    let notify = icpt.as_ref().map(|i| i.notify.clone());
     let r = catch_unwind(AssertUnwindSafe(|| {
         rt.block_on(async {
             let guarded = CatchPanic(Some(Box::pin(fut)));
@@ -133,7 +171,7 @@ where
             }
         })
     }));
-    let crashed = icpt.is_some_and(|i| i.is_crashed());
+    let crashed = icpt.as_ref().is_some_and(|i| (i.crashed)());
     let end = match r {
         Err(_) => End::Panicked(take_last_panic().unwrap_or_else(|| "panic".into())),
         Ok(None) => End::Crashed,
@@ -151,7 +189,9 @@ where
         let _ = catch_unwind(AssertUnwindSafe(|| {
             rt.block_on(async {
                 for _ in 0..2000 {
-                    if tokio::runtime::Handle::current().metrics().num_alive_tasks() == 0 {
+                    if tokio::runtime::Handle::current().metrics().num_alive_tasks() == 0
+                        || icpt.as_ref().is_some_and(|i| (i.crashed)())
+                    {
                         break;
                     }
                     tokio::task::yield_now().await;
@@ -164,10 +204,10 @@ where
     end
 }
 
-pub fn transport_for(dir: &Path, icpt: Option<&Arc<Icpt>>) -> Transport {
+pub fn transport_for(dir: &Path, icpt: impl AsHooked) -> Transport {
     let t = Transport::local(dir);
-    match icpt {
-        Some(i) => t.with_interceptor(i.clone()),
+    match icpt.hooked() {
+        Some(i) => t.with_interceptor(i.icpt.clone()),
         None => t,
     }
 }
@@ -271,7 +311,7 @@ pub fn do_backup(
     archive_dir: &Path,
     src: &Path,
     opts: &BOpts,
-    icpt: Option<&Arc<Icpt>>,
+    icpt: impl AsHooked + Copy,
     flavor: Flavor,
 ) -> BackupOut {
     let monitor = TestMonitor::arc();
@@ -407,7 +447,7 @@ pub fn do_restore(
     archive_dir: &Path,
     dest: &Path,
     args: &RestoreArgs,
-    icpt: Option<&Arc<Icpt>>,
+    icpt: impl AsHooked + Copy,
     flavor: Flavor,
 ) -> OpOut {
     let monitor = TestMonitor::arc();
@@ -449,7 +489,7 @@ pub fn do_delete(
     bands: &[u32],
     dry_run: bool,
     break_lock: bool,
-    icpt: Option<&Arc<Icpt>>,
+    icpt: impl AsHooked + Copy,
     flavor: Flavor,
     order: Option<Vec<usize>>,
 ) -> DeleteOut {
@@ -501,7 +541,7 @@ pub fn apply_perm<T: Clone>(v: &mut Vec<T>, perm: &[usize]) {
     }
 }
 
-pub fn do_validate(archive_dir: &Path, quick: bool, icpt: Option<&Arc<Icpt>>) -> OpOut {
+pub fn do_validate(archive_dir: &Path, quick: bool, icpt: impl AsHooked + Copy) -> OpOut {
     let monitor = TestMonitor::arc();
     let transport = transport_for(archive_dir, icpt);
     let m2 = monitor.clone();
@@ -538,7 +578,7 @@ pub fn do_list(
     sel: Sel,
     subtree: &str,
     exclude: &[String],
-    icpt: Option<&Arc<Icpt>>,
+    icpt: impl AsHooked + Copy,
 ) -> (OpOut, Vec<LEntry>) {
     let monitor = TestMonitor::arc();
     let transport = transport_for(archive_dir, icpt);
@@ -584,8 +624,8 @@ pub fn do_list(
 
 pub fn do_resolve(archive_dir: &Path, sel: Sel) -> (OpOut, Option<u32>) {
     let monitor = TestMonitor::arc();
-    let transport = transport_for(archive_dir, None);
-    let end = drive(Flavor::Current, None, async move {
+    let transport = transport_for(archive_dir, None::<&Hooked>);
+    let end = drive(Flavor::Current, None::<&Hooked>, async move {
         let archive = Archive::open(transport).await.map_err(|e| format!("open: {e}"))?;
         let id = archive
             .resolve_band_id(sel.policy())
@@ -600,8 +640,8 @@ pub fn do_resolve(archive_dir: &Path, sel: Sel) -> (OpOut, Option<u32>) {
 
 pub fn do_open(archive_dir: &Path) -> OpOut {
     let monitor = TestMonitor::arc();
-    let transport = transport_for(archive_dir, None);
-    let end = drive(Flavor::Current, None, async move {
+    let transport = transport_for(archive_dir, None::<&Hooked>);
+    let end = drive(Flavor::Current, None::<&Hooked>, async move {
         Archive::open(transport)
             .await
             .map(|_| ())
@@ -613,9 +653,9 @@ pub fn do_open(archive_dir: &Path) -> OpOut {
 /// `conserve versions`-like query: list band ids and get_info of each.
 pub fn do_versions(archive_dir: &Path) -> (OpOut, Vec<(u32, bool)>) {
     let monitor = TestMonitor::arc();
-    let transport = transport_for(archive_dir, None);
+    let transport = transport_for(archive_dir, None::<&Hooked>);
     let m3 = monitor.clone();
-    let end = drive(Flavor::Current, None, async move {
+    let end = drive(Flavor::Current, None::<&Hooked>, async move {
         use conserve::monitor::Monitor;
         let archive = Archive::open(transport).await.map_err(|e| format!("open: {e}"))?;
         // The same library calls `conserve versions` makes (show_versions itself prints to
@@ -654,8 +694,8 @@ pub fn do_versions(archive_dir: &Path) -> (OpOut, Vec<(u32, bool)>) {
 }
 
 pub fn do_create_archive(dir: &Path) {
-    let transport = transport_for(dir, None);
-    let end = drive(Flavor::Current, None, async move {
+    let transport = transport_for(dir, None::<&Hooked>);
+    let end = drive(Flavor::Current, None::<&Hooked>, async move {
         Archive::create(transport).await.map(|_| ()).map_err(|e| format!("{e}"))
     });
     match end {
